@@ -222,7 +222,7 @@ def ev3(t, env, bs=()):
     return U
 
 
-def refute(goal):
+def refute(goal, cap=None):
     """a valuation of the free variables under which the goal is definitely false, or None"""
     fv = [z for z in ref.free_atoms(goal) if z[0] == 'v']
     pools = []
@@ -231,6 +231,12 @@ def refute(goal):
             pools.append(FUNS)
         else:
             pools.append(GRID.get(z[2], [None]))
+    if cap is not None:
+        n = 1
+        for pl in pools:
+            n *= len(pl)
+        if n > cap or any(pl == [None] for pl in pools):
+            return None
     for vals in itertools.product(*pools):
         env = dict(zip(fv, vals))
         try:
